@@ -11,6 +11,7 @@ Here: every state reachable through the modelled API satisfies them.
 The per-track derived columns of C11 are outside this part (track work-package).
 -/
 import Proofs.V2Run
+import Proofs.V2WfConv
 
 namespace EngineModel.Properties.C11V2
 open EngineModel EngineModel.Db.Chain EngineModel.Db.V2 EngineModel.Spec
@@ -60,6 +61,25 @@ theorem C11V2_reachable_structure (ops : List Db.V2.Op) (hapi : ops.all apiOp = 
     have hu := ho (core e) (mem_cores.mpr ⟨e, he, rfl⟩)
     exact ⟨(hI.mem.live (core e) (mem_cores.mpr ⟨e, he, rfl⟩) hu).1, (hI.mem.live (core e) (mem_cores.mpr ⟨e, he, rfl⟩) hu).2, hu⟩
 
+/-- Not only histories from the empty library: ANY state the executable check accepts — e.g. a library loaded from
+disk whose dump passes `wfRaw` — satisfies the proof-level invariants, for the Spec state read off its tables
+by the library's own walks.  Every per-operation theorem of C07V2 / C08V2 / C09 (stated for `Inv` / `ChInv` /
+`PlInv`) therefore applies to it. -/
+theorem C11V2_wfRaw_gives_invariants (d : Db) (h : wfRaw d = true) : Inv (readOrd d) d :=
+  inv_of_wfRaw h
+
+/-- … and well-formedness is kept along every history of the crate / track API from such a state (all of whose
+entries belong to the library's own database). -/
+theorem C11V2_wellformed_stays_wellformed (d : Db) (h : wfRaw d = true) (hown : d.pe.all (fun e => e.val.uuid == 0) = true)
+    (ops : List Db.V2.Op) (hapi : ops.all apiOp = true) : wfRaw (run d ops) = true := by
+  have ho : AllOwn d := by
+    intro c hc
+    obtain ⟨r, hr, rfl⟩ := mem_cores.mp hc
+    rw [List.all_eq_true] at hown
+    simpa [core] using hown r hr
+  obtain ⟨_, hI, ho'⟩ := inv_allOwn_run (inv_of_wfRaw h) ho ops hapi
+  exact wfRaw_of_inv hI ho'
+
 /- Full statement for the chain part (false, see `C11V2_chains_counterexample`):
    ∀ ops, wfChains (run Db.empty ops) = true. -/
 /-- The chain part alone also holds under the table-level playlist_entity_table operations (which may address
@@ -85,6 +105,10 @@ def sampleOps : List Db.V2.Op :=
 example : sampleOps.all apiOp = true := by decide
 example : wfRaw (run Db.empty sampleOps) = true := by decide
 example : (run Db.empty (sampleOps.take 12)).pl.map (fun r => (r.id, r.key, r.next)) = [(1, 0, 5), (2, 1, 0), (3, 2, 0), (4, 3, 0), (5, 0, 0)] := by decide
+/-- a state that was NOT built by a history from the empty library (ids 7, 9, 12; a foreign entry): accepted by
+`wfRaw`, hence covered by `C11V2_wfRaw_gives_invariants` -/
+def loaded : Db := ⟨[⟨7, 0, 9, [97]⟩, ⟨9, 0, 0, [98]⟩, ⟨12, 9, 0, [99]⟩], 15, [⟨4, 9, 6, ⟨3, 0⟩⟩, ⟨6, 9, 0, ⟨3, 5⟩⟩], 8, [3, 5], 5⟩
+example : wfRaw loaded = true := by decide
 /-- `wfRaw` is not trivially true: it rejects a table with a dangling successor. -/
 example : wfRaw { Db.empty with pl := [⟨1, 0, 7, [97]⟩], plSeq := 1 } = false := by decide
 
